@@ -1,0 +1,19 @@
+//go:build verif
+
+package experiment
+
+import (
+	"k8s.io/apimachinery/pkg/runtime"
+	"k8s.io/client-go/tools/record"
+	"sigs.k8s.io/controller-runtime/pkg/client"
+
+	"github.com/kubeflow/katib/pkg/controller.v1beta1/experiment/manifest"
+	"github.com/kubeflow/katib/pkg/controller.v1beta1/experiment/suggestion"
+	"github.com/kubeflow/katib/pkg/controller.v1beta1/experiment/util"
+)
+
+func NewReconcilerForVerif(c client.Client, s *runtime.Scheme, rec record.EventRecorder, sg suggestion.Suggestion, g manifest.Generator, col *util.ExperimentsCollector) *ReconcileExperiment {
+	r := &ReconcileExperiment{Client: c, scheme: s, recorder: rec, Suggestion: sg, Generator: g, collector: col}
+	r.updateStatusHandler = r.updateStatus
+	return r
+}
